@@ -115,47 +115,55 @@ pub struct ShapeIterator<'a, T: Read, S: ReadableShape> {
     // From where we read the shapes
     source: &'a mut T,
     // Current position in bytes in the source.
-    current_pos: usize,
+    // It belongs to the reader, so that the position is known
+    // to whatever is called after this iterator is dropped.
+    current_pos: &'a mut usize,
     // How many bytes the header said there are in
     // the file.
     file_length: usize,
-    // Iterator over the shape indices, used to seek
+    // The shape indices, used to seek
     // to the start of a shape when reading
-    shapes_indices: Option<std::slice::Iter<'a, ShapeIndex>>,
+    shapes_indices: Option<&'a [ShapeIndex]>,
+    // Index of the next shape to read when there are shape indices
+    // (also belongs to the reader).
+    next_index: &'a mut usize,
 }
 
 impl<T: Read + Seek, S: ReadableShape> Iterator for ShapeIterator<'_, T, S> {
     type Item = Result<S, crate::Error>;
 
     fn next(&mut self) -> Option<Self::Item> {
-        if let Some(ref mut shapes_indices) = self.shapes_indices {
+        if let Some(shapes_indices) = self.shapes_indices {
             // Its 'safer' to seek to the shape offset when we have the `shx` file
             // as some shapes may not be stored sequentially and may contain 'garbage'
             // bytes between them.
             // The index alone tells when the iteration is over.
-            let start_pos = shapes_indices.next()?.offset * 2;
-            if start_pos != self.current_pos as i32 {
+            let start_pos = shapes_indices.get(*self.next_index)?.offset * 2;
+            *self.next_index += 1;
+            if start_pos != *self.current_pos as i32 {
                 if let Err(err) = self.source.seek(SeekFrom::Start(start_pos as u64)) {
                     return Some(Err(err.into()));
                 }
-                self.current_pos = start_pos as usize;
+                *self.current_pos = start_pos as usize;
             }
-        } else if self.current_pos >= self.file_length {
+        } else if *self.current_pos >= self.file_length {
             return None;
         }
         let (hdr, shape) = match read_one_shape_as::<T, S>(self.source) {
             Err(e) => return Some(Err(e)),
             Ok(hdr_and_shape) => hdr_and_shape,
         };
-        self.current_pos += record::RecordHeader::SIZE;
-        self.current_pos += hdr.record_size as usize * 2;
+        *self.current_pos += record::RecordHeader::SIZE;
+        *self.current_pos += hdr.record_size as usize * 2;
         Some(Ok(shape))
     }
 
     fn size_hint(&self) -> (usize, Option<usize>) {
         self.shapes_indices
-            .as_ref()
-            .map(|s| s.size_hint())
+            .map(|s| {
+                let remaining = s.len().saturating_sub(*self.next_index);
+                (remaining, Some(remaining))
+            })
             .unwrap_or((0, None))
     }
 }
@@ -197,6 +205,10 @@ pub struct ShapeReader<T> {
     source: T,
     header: header::Header,
     shapes_index: Option<Vec<ShapeIndex>>,
+    // Position (in bytes) of the source, where the next iteration starts
+    current_pos: usize,
+    // Index of the shape the next iteration starts with (when there is a .shx)
+    next_index: usize,
 }
 
 impl<T: Read> ShapeReader<T> {
@@ -229,6 +241,8 @@ impl<T: Read> ShapeReader<T> {
             source,
             header,
             shapes_index: None,
+            current_pos: header::HEADER_SIZE as usize,
+            next_index: 0,
         })
     }
 
@@ -259,6 +273,8 @@ impl<T: Read> ShapeReader<T> {
             source,
             header,
             shapes_index,
+            current_pos: header::HEADER_SIZE as usize,
+            next_index: 0,
         })
     }
 
@@ -353,9 +369,10 @@ impl<T: Read + Seek> ShapeReader<T> {
         ShapeIterator {
             _shape: std::marker::PhantomData,
             source: &mut self.source,
-            current_pos: header::HEADER_SIZE as usize,
+            current_pos: &mut self.current_pos,
             file_length: (self.header.file_length as usize) * 2,
-            shapes_indices: self.shapes_index.as_ref().map(|s| s.iter()),
+            shapes_indices: self.shapes_index.as_deref(),
+            next_index: &mut self.next_index,
         }
     }
 
@@ -432,6 +449,8 @@ impl<T: Read + Seek> ShapeReader<T> {
             {
                 return Some(Err(Error::IoError(e)));
             }
+            self.current_pos = header::HEADER_SIZE as usize;
+            self.next_index = 0;
             Some(Ok(shape))
         } else {
             Some(Err(Error::MissingIndexFile))
@@ -456,10 +475,14 @@ impl<T: Read + Seek> ShapeReader<T> {
                 .get(index)
                 .map(|shape_idx| (shape_idx.offset * 2) as u64);
 
-            match offset {
+            let num_shapes = shapes_index.len();
+            let pos = match offset {
                 Some(n) => self.source.seek(SeekFrom::Start(n)),
                 None => self.source.seek(SeekFrom::End(0)),
             }?;
+            // The next iteration starts with the shape we just seeked to
+            self.current_pos = pos as usize;
+            self.next_index = index.min(num_shapes);
             Ok(())
         } else {
             Err(Error::MissingIndexFile)
